@@ -1,5 +1,6 @@
 import gzip
 import zlib
+import codecs
 
 from io import StringIO, BytesIO, TextIOWrapper
 from queue import Queue
@@ -191,9 +192,11 @@ class HttpSource(Source[Union[str,Iterable[str]]]):
                 return decomp(b.read()).decode(charset)
         else:
             def chunks(decomp,charset,size,bites):
+                decode = codecs.getincrementaldecoder(charset)().decode #a character can straddle two chunks
                 with bites as b:
                     while chunk := b.read(size):
-                        yield decomp(chunk).decode(charset)
+                        yield decode(decomp(chunk))
+                    yield decode(b'',True)
 
             return DelimSource(IterableSource(chunks(decomp,charset,chunk,bites))).read()
 
